@@ -164,6 +164,35 @@ Theorem C04_tx_pit_partial : forall L l d id pit,
 Proof. exact c04_tx_pit_partial. Qed.
 Print Assumptions C04_tx_pit_partial.
 
+(* ---- GET /aggregate/balances (GetAggregatedBalances): per asset, over all accounts ------------------------------------------------ *)
+Definition C04_aggregate_statement : Prop := forall L l d s v,
+  run L = Some d -> agg_lookup (aggregated_volumes d l None) s = Some v -> exists x, v = (Some x, Some x).
+
+Theorem C04_aggregate_refuted : ~ C04_aggregate_statement.
+Proof.
+  intros S. destruct c04_aggregate_refuted as [L [l [d [s [v [H [E V]]]]]]]. destruct (S L l d s v H E) as [x Hx].
+  rewrite V in Hx. inversion Hx. congruence.
+Qed.
+Print Assumptions C04_aggregate_refuted.
+
+(* for every asset, what is reported is what the replay gives ... *)
+Theorem C04_aggregate_partial : forall L l d pit s,
+  run L = Some d ->
+  no_self_transfer_on_new_account (ledger_logs l L) = true ->
+  (pit <> None -> dates_monotone (ledger_logs l L) = true) ->
+  agg_lookup (aggregated_volumes d l pit) s = agg_lookup (vols_of (replay_aggregated (ledger_logs l L) pit)) s.
+Proof. exact c04_aggregate_partial. Qed.
+Print Assumptions C04_aggregate_partial.
+
+(* ... and it is balanced: inputs = outputs over the whole ledger, i.e. every aggregated balance is zero *)
+Theorem C04_aggregate_balanced_partial : forall L l d pit s v,
+  run L = Some d ->
+  no_self_transfer_on_new_account (ledger_logs l L) = true ->
+  (pit <> None -> dates_monotone (ledger_logs l L) = true) ->
+  agg_lookup (aggregated_volumes d l pit) s = Some v -> exists x, v = (Some x, Some x).
+Proof. exact c04_aggregate_balanced. Qed.
+Print Assumptions C04_aggregate_balanced_partial.
+
 (* ---- the volumes a transaction reports for itself (aggregates) -------------------------------------------------------------------- *)
 (* two postings from one source: post-commit volumes of the source are those after the first posting ((0,10), not (0,15)) *)
 Theorem C04_tx_volumes_refuted_first_move : exists L l d,
